@@ -70,7 +70,7 @@ def plan(tier, seed):
         jobs.append({"variant": v, "part": "threads", "shard": 108, "nshards": 1, "params": {"threads": 8, "rounds": 6 if thorough else 2, "steps": 100 if thorough else 40, "inject": True}})
         for n in (4, 8):
             jobs.append({"variant": v, "part": "roles", "shard": 400 + n, "nshards": 1, "params": {"threads": n, "rounds": 6 if thorough else 3, "iters": 60000 if thorough else 12000}})
-        jobs.append({"variant": v, "part": "coldstart", "shard": 500, "nshards": 1, "params": {"trials": 120 if thorough else 16}})
+        jobs.append({"variant": v, "part": "coldstart", "shard": 500, "nshards": 1, "params": {"trials": 120 if thorough else 16, "sig_trials": 24 if thorough else 4, "sig_rounds": 400 if thorough else 100}})
     if thorough:
         for n in (4, 16):
             jobs.append({"variant": "asan", "part": "threads", "shard": 200 + n, "nshards": 1, "params": {"threads": n, "rounds": 10, "steps": 400, "inject": False}})
@@ -522,9 +522,9 @@ def run_coldstart(ctx):
 
     script = os.path.join(os.path.dirname(os.path.dirname(os.path.abspath(__file__))), "coldstart.py")
 
-    def child(mode, n):
+    def child(mode, n, *more):
         try:
-            p = subprocess.run([sys.executable, script, mode, str(n)], capture_output=True, text=True, timeout=180)
+            p = subprocess.run([sys.executable, script, mode, str(n)] + [str(x) for x in more], capture_output=True, text=True, timeout=180)
         except subprocess.TimeoutExpired:
             return None, "timeout"
         if p.returncode != 0:
@@ -534,6 +534,7 @@ def run_coldstart(ctx):
         except ValueError:
             return None, f"unparsable output {p.stdout[-200:]!r} {p.stderr[-200:]!r}"
 
+    run_signals(ctx, child)
     want = {}
     for trial in range(ctx.params["trials"]):
         n = (4, 8, 12, 16)[trial % 4]
@@ -562,6 +563,29 @@ def run_coldstart(ctx):
             i, g, w = bad[0]
             kind = "thread_blocked_forever" if g == "BLOCKED" else "thread_exception" if isinstance(g, str) and g.startswith("EXC:") else "differs_from_sequential"
             ctx.fail(kind, case, f"first use from {n} threads in a fresh interpreter: op {i} gave {g!r}, a sequential fresh interpreter gives {w!r} ({len(bad)} of {len(got)} ops differ)")
+
+
+def run_signals(ctx, child):
+    """Python-level signal handlers run in the main thread BETWEEN two steps of whatever it is doing - the compiled quoter included, if
+    it polls for signals: trials with an interval timer firing every 0.3 ms while the main thread quotes long texts and workers quote
+    others (yv/coldstart.py 'sig').  A handler is ordinary interpreted code, so the GIL can change hands inside it."""
+    for trial in range(ctx.params.get("sig_trials", 0)):
+        n = (3, 6)[trial % 2]
+        got, err = child("sig", n, ctx.params.get("sig_rounds", 100))
+        ctx.count("signal_trials")
+        case = {"part": "coldstart", "kind": "signals", "trial": trial, "threads": n}
+        if got is None:
+            ctx.ev(("signals", n, "child-failed"))
+            if err == "timeout":
+                ctx.count("coldstart_timeouts")
+            else:
+                ctx.fail("cold_start_crash", case, f"signal trial with {n} worker threads: {err}")
+            continue
+        ctx.count("signal_handler_runs", got.get("handler_runs", 0))
+        ctx.count("signal_rounds", got.get("rounds", 0))
+        ctx.ev(("signals", n, "differs" if got["bad"] else "equal"))
+        if got["bad"]:
+            ctx.fail("differs_from_sequential", case, f"main thread quoting under a 0.3 ms interval timer with a Python handler, {n} quoting workers: {got['bad'][0]!r}")
 
 
 def run(ctx):
@@ -736,6 +760,8 @@ def finalize(merged, results, tier):
         unmet.append("no thread event was checked")
     if c.get("role_calls_checked", 0) == 0:
         unmet.append("the role-split phase checked no call")
+    if c.get("signal_handler_runs", 0) == 0:
+        unmet.append("no signal handler ran during the signal trials")
     if c.get("coldstart_trials", 0) == 0:
         unmet.append("no fresh-interpreter first-use trial ran")
     if c.get("churn_calls", 0) == 0:
